@@ -3,6 +3,7 @@ package sim
 import (
 	"sort"
 	"sync"
+	"sync/atomic"
 	"time"
 )
 
@@ -19,6 +20,40 @@ type VClock struct {
 	pending []*Waiter
 	armed   map[time.Duration]uint64 // total registrations per duration
 	fired   uint64
+	gate    atomic.Pointer[nowGate]
+}
+
+// nowGate parks the first caller of Now() after ArmNowGate until OpenNowGate. It lets a controller hold
+// a goroutine of the system under test inside a critical section that reads the clock (a suspension
+// point the real program has: any clock read may be descheduled), without a hook in the code.
+type nowGate struct {
+	taken  atomic.Bool
+	parked chan struct{}
+	open   chan struct{}
+}
+
+func (c *VClock) ArmNowGate() {
+	c.gate.Store(&nowGate{parked: make(chan struct{}), open: make(chan struct{})})
+}
+
+// WaitNowGateParked reports whether some goroutine is parked in Now() (false: real-time watchdog expired).
+func (c *VClock) WaitNowGateParked(watchdog time.Duration) bool {
+	g := c.gate.Load()
+	if g == nil {
+		return false
+	}
+	select {
+	case <-g.parked:
+		return true
+	case <-time.After(watchdog):
+		return false
+	}
+}
+
+func (c *VClock) OpenNowGate() {
+	if g := c.gate.Swap(nil); g != nil {
+		close(g.open)
+	}
 }
 
 type Waiter struct {
@@ -35,6 +70,10 @@ func NewVClock(start time.Time) *VClock {
 }
 
 func (c *VClock) Now() time.Time {
+	if g := c.gate.Load(); g != nil && g.taken.CompareAndSwap(false, true) {
+		close(g.parked)
+		<-g.open
+	}
 	c.mu.Lock()
 	defer c.mu.Unlock()
 	return c.now
